@@ -761,8 +761,8 @@ Section WmcProofs.
   (* D6: a formula without clauses has no variables and weight one *)
   Corollary wmc_empty_formula w : wmc R radd rmul rzero rone (cnf_new []) w = Some rone.
   Proof.
-    destruct (wmc_bruteforce_spec [] w) as [H _]. cbn in H. rewrite (H [] eq_refl).
-    unfold wmc_spec, wmc_sum, weight_spec. cbn. apply radd_0_r.
+    destruct (wmc_bruteforce_spec [] w) as [H _]. specialize (H [] eq_refl). rewrite H.
+    f_equal. unfold wmc_spec, wmc_sum, weight_spec. cbn. apply radd_0_r.
   Qed.
 
   Lemma wmc_sum_false wv f l : (forall a, f a = false) -> wmc_sum wv f l = rzero.
@@ -782,3 +782,280 @@ Section WmcProofs.
     specialize (Ht [] Hin). discriminate.
   Qed.
 End WmcProofs.
+
+(* ------------------------------------------------------------------------------------ *)
+(* Literal bit packing *)
+Lemma two63_pos : two63 <> 0. Proof. discriminate. Qed.
+
+Lemma mod64_mod63 v : (v mod two64) mod two63 = v mod two63.
+Proof.
+  change two64 with (two63 * 2). rewrite N.mod_mul_r by discriminate.
+  rewrite (N.mul_comm two63), N.mod_add by discriminate. apply N.mod_mod; discriminate.
+Qed.
+
+Lemma set_label_zero v : set_label 0 v = v mod two63.
+Proof.
+  unfold set_label, bf_set.
+  change ((2 ^ (63 - 0) - 1) * 2 ^ 0) with (N.ones 63).
+  rewrite N.ldiff_0_l, N.lor_0_l, N.land_ones.
+  change (2 ^ 0) with 1. rewrite N.mul_1_r. apply mod64_mod63.
+Qed.
+
+Lemma land_low_two63 x : N.land (x mod two63) two63 = 0.
+Proof.
+  apply N.bits_inj. intros n. rewrite N.land_spec, N.bits_0.
+  unfold two63 at 2. rewrite N.pow2_bits_eqb.
+  destruct (N.eqb_spec 63 n) as [<-|Hne]; [|apply andb_false_r].
+  unfold two63. rewrite N.mod_pow2_bits_high by lia. reflexivity.
+Qed.
+
+Lemma set_polarity_low x (p : bool) :
+  set_polarity (x mod two63) (if p then 1 else 0) = x mod two63 + (if p then two63 else 0).
+Proof.
+  unfold set_polarity, bf_set.
+  change ((2 ^ (64 - 63) - 1) * 2 ^ 63) with two63.
+  assert (E1 : N.ldiff (x mod two63) two63 = x mod two63).
+  { apply N.bits_inj. intros n. rewrite N.ldiff_spec.
+    unfold two63 at 2. rewrite N.pow2_bits_eqb.
+    destruct (N.eqb_spec 63 n) as [<-|Hne]; [|apply andb_true_r].
+    unfold two63. rewrite N.mod_pow2_bits_high by lia. reflexivity. }
+  rewrite E1. destruct p.
+  - change (N.land ((1 * 2 ^ 63) mod two64) two63) with two63.
+    rewrite <- N.lxor_lor by apply land_low_two63.
+    symmetry. apply N.add_nocarry_lxor, land_low_two63.
+  - change (N.land ((0 * 2 ^ 63) mod two64) two63) with 0.
+    rewrite N.lor_0_r, N.add_0_r. reflexivity.
+Qed.
+
+(* the packed word: 63 label bits, the polarity in bit 63 *)
+Theorem literal_new_value l p :
+  literal_new l p = l mod two63 + (if p then two63 else 0).
+Proof. unfold literal_new. rewrite set_label_zero. apply set_polarity_low. Qed.
+
+Lemma literal_new_lt l p : literal_new l p < two64.
+Proof.
+  rewrite literal_new_value. pose proof (N.mod_lt l two63 two63_pos) as H.
+  change two64 with (two63 + two63). destruct p; lia.
+Qed.
+
+Lemma raw_label_value d : d < two64 -> raw_label d = d mod two63.
+Proof.
+  intros Hd. unfold raw_label, bf_get.
+  change (2 ^ (64 - 63)) with 2. change (2 ^ (64 - 63 + 0)) with 2.
+  change two64 with (two63 * 2). rewrite N.mul_mod_distr_r by discriminate.
+  apply N.div_mul; discriminate.
+Qed.
+
+Lemma raw_polarity_value d : d < two64 -> raw_polarity d = d / two63.
+Proof.
+  intros Hd. unfold raw_polarity, bf_get.
+  change (2 ^ (64 - 64)) with 1. change (2 ^ (64 - 64 + 63)) with two63.
+  rewrite N.mul_1_r, N.mod_small by exact Hd. reflexivity.
+Qed.
+
+(* round trip: the label survives modulo 2^63 (so exactly when it is below 2^63), the
+   polarity always *)
+Theorem literal_roundtrip l p :
+  literal_label (literal_new l p) = l mod two63 /\ literal_polarity (literal_new l p) = p.
+Proof.
+  unfold literal_label, literal_polarity.
+  rewrite raw_label_value, raw_polarity_value by apply literal_new_lt.
+  rewrite literal_new_value. pose proof (N.mod_lt l two63 two63_pos) as H. split.
+  - destruct p.
+    + replace (l mod two63 + two63) with (l mod two63 + 1 * two63) by lia.
+      rewrite N.mod_add by discriminate. apply N.mod_mod; discriminate.
+    + rewrite N.add_0_r. apply N.mod_mod; discriminate.
+  - destruct p.
+    + replace (l mod two63 + two63) with (l mod two63 + 1 * two63) by lia.
+      rewrite N.div_add by discriminate. rewrite N.div_small by exact H. reflexivity.
+    + rewrite N.add_0_r, N.div_small by exact H. reflexivity.
+Qed.
+
+Corollary literal_view_new l p : l < two63 -> literal_view (literal_new l p) = (l, p).
+Proof.
+  intros Hl. unfold literal_view. destruct (literal_roundtrip l p) as [-> ->].
+  rewrite N.mod_small by exact Hl. reflexivity.
+Qed.
+
+Corollary literal_new_inj l1 p1 l2 p2 :
+  l1 < two63 -> l2 < two63 -> literal_new l1 p1 = literal_new l2 p2 -> l1 = l2 /\ p1 = p2.
+Proof.
+  intros H1 H2 E. pose proof (literal_view_new l1 p1 H1) as V1.
+  rewrite E, (literal_view_new l2 p2 H2) in V1. inversion V1; auto.
+Qed.
+
+Theorem literal_negated_view d :
+  literal_view (literal_negated d) = (literal_label d mod two63, negb (literal_polarity d)).
+Proof.
+  unfold literal_negated, literal_view.
+  destruct (literal_roundtrip (literal_label d) (negb (literal_polarity d))) as [-> ->]. reflexivity.
+Qed.
+
+(* ------------------------------------------------------------------------------------ *)
+(* VarSet / PartialModel laws *)
+Lemma vs_contains_insert v s w : vs_contains (vs_insert v s) w = (w =? v) || vs_contains s w.
+Proof.
+  unfold vs_contains. induction s as [|x t IH]; cbn [vs_insert existsb].
+  - reflexivity.
+  - destruct (v <? x); [reflexivity|]. destruct (N.eqb_spec v x) as [->|Hne].
+    + cbn [existsb]. destruct (w =? x); reflexivity.
+    + cbn [existsb]. rewrite IH. destruct (w =? v), (w =? x); reflexivity.
+Qed.
+
+Lemma vs_contains_remove v s w : vs_contains (vs_remove v s) w = negb (w =? v) && vs_contains s w.
+Proof.
+  unfold vs_contains, vs_remove. induction s as [|x t IH]; cbn [filter existsb].
+  - rewrite andb_false_r; reflexivity.
+  - destruct (N.eqb_spec x v) as [->|Hne]; cbn [negb existsb]; rewrite IH.
+    + destruct (w =? v); reflexivity.
+    + destruct (N.eqb_spec w x) as [->|Hwx]; cbn [orb].
+      * destruct (N.eqb_spec x v); [contradiction|reflexivity].
+      * reflexivity.
+Qed.
+
+Lemma vs_contains_In s v : vs_contains s v = true <-> In v s.
+Proof.
+  unfold vs_contains. rewrite existsb_exists. split.
+  - intros [x [Hx He]]. apply N.eqb_eq in He. subst; exact Hx.
+  - intros H. exists v. split; [exact H|apply N.eqb_refl].
+Qed.
+
+Lemma vs_contains_difference s o w :
+  vs_contains (vs_difference s o) w = vs_contains s w && negb (vs_contains o w).
+Proof.
+  apply eq_true_iff_eq. rewrite andb_true_iff, negb_true_iff, !vs_contains_In.
+  unfold vs_difference. rewrite filter_In, negb_true_iff. reflexivity.
+Qed.
+
+(* iteration order: a VarSet stays strictly increasing (BitSet iterates in index order) *)
+Definition vs_wf (s : varset) : Prop := StronglySorted N.lt s.
+
+Lemma vs_insert_In v s y : In y (vs_insert v s) <-> y = v \/ In y s.
+Proof.
+  rewrite <- !vs_contains_In, vs_contains_insert, orb_true_iff, N.eqb_eq. reflexivity.
+Qed.
+
+Lemma vs_insert_wf v s : vs_wf s -> vs_wf (vs_insert v s).
+Proof.
+  unfold vs_wf. induction s as [|x t IH]; intros H; cbn [vs_insert].
+  - repeat constructor.
+  - inversion H as [|? ? Ht Hx]; subst.
+    destruct (N.ltb_spec v x) as [Hlt|Hge].
+    + constructor; [exact H|]. constructor; [exact Hlt|].
+      eapply Forall_impl; [|exact Hx]. intros a Ha; cbn beta in *. lia.
+    + destruct (N.eqb_spec v x) as [->|Hne]; [exact H|].
+      constructor; [apply IH, Ht|]. apply Forall_forall. intros y Hy.
+      apply vs_insert_In in Hy. destruct Hy as [->|Hy]; [lia|].
+      rewrite Forall_forall in Hx. apply Hx, Hy.
+Qed.
+
+Lemma filter_wf p s : vs_wf s -> vs_wf (filter p s).
+Proof.
+  unfold vs_wf. induction s as [|x t IH]; intros H; cbn [filter]; [constructor|].
+  inversion H as [|? ? Ht Hx]; subst. destruct (p x); [|apply IH, Ht].
+  constructor; [apply IH, Ht|]. apply Forall_forall. intros y Hy. apply filter_In in Hy.
+  rewrite Forall_forall in Hx. apply Hx, Hy.
+Qed.
+
+Lemma vs_remove_wf v s : vs_wf s -> vs_wf (vs_remove v s).
+Proof. apply filter_wf. Qed.
+Lemma vs_difference_wf s o : vs_wf s -> vs_wf (vs_difference s o).
+Proof. apply filter_wf. Qed.
+
+Definition pm_wf (m : pmodel) : Prop :=
+  vs_wf (pm_true m) /\ vs_wf (pm_false m) /\
+  (forall v, vs_contains (pm_true m) v = true -> vs_contains (pm_false m) v = false).
+
+Theorem pm_get_new n v : pm_get (pm_new n) v = None.
+Proof. reflexivity. Qed.
+
+Theorem pm_get_set m v b w : pm_get (pm_set m v b) w = if w =? v then Some b else pm_get m w.
+Proof.
+  unfold pm_get, pm_set. destruct b; cbn [pm_true pm_false];
+    rewrite vs_contains_insert, vs_contains_remove; destruct (w =? v); cbn [orb negb andb]; reflexivity.
+Qed.
+
+Theorem pm_get_unset m v w : pm_get (pm_unset m v) w = if w =? v then None else pm_get m w.
+Proof.
+  unfold pm_get, pm_unset. cbn [pm_true pm_false].
+  rewrite !vs_contains_remove. destruct (w =? v); cbn [negb andb]; reflexivity.
+Qed.
+
+Theorem pm_is_set_spec m v :
+  pm_is_set m v = match pm_get m v with Some _ => true | None => false end.
+Proof.
+  unfold pm_is_set, pm_get.
+  destruct (vs_contains (pm_true m) v), (vs_contains (pm_false m) v); reflexivity.
+Qed.
+
+Theorem pm_lit_neg_implied_iff m l :
+  pm_lit_neg_implied m l = true <-> pm_get m (fst l) = Some (negb (snd l)).
+Proof.
+  unfold pm_lit_neg_implied. destruct (pm_get m (fst l)) as [b|]; [|split; discriminate].
+  destruct b, (snd l); cbn; split; intros H; try reflexivity; try discriminate.
+Qed.
+
+Lemma pm_new_wf n : pm_wf (pm_new n).
+Proof. split; [constructor|split; [constructor|intros v H; discriminate]]. Qed.
+
+Lemma pm_set_wf m v b : pm_wf m -> pm_wf (pm_set m v b).
+Proof.
+  intros (Ht & Hf & Hd). unfold pm_set. destruct b; cbn [pm_true pm_false].
+  - split; [apply vs_insert_wf, Ht|]. split; [apply vs_remove_wf, Hf|].
+    intros w. rewrite vs_contains_insert, vs_contains_remove.
+    destruct (N.eqb_spec w v) as [->|Hne]; cbn [orb negb andb]; [intros _; reflexivity|apply Hd].
+  - split; [apply vs_remove_wf, Ht|]. split; [apply vs_insert_wf, Hf|].
+    intros w. rewrite vs_contains_insert, vs_contains_remove.
+    destruct (N.eqb_spec w v) as [->|Hne]; cbn [orb negb andb]; [discriminate|apply Hd].
+Qed.
+
+Lemma pm_unset_wf m v : pm_wf m -> pm_wf (pm_unset m v).
+Proof.
+  intros (Ht & Hf & Hd). unfold pm_unset. cbn [pm_true pm_false]. split; [|split].
+  - apply vs_remove_wf, Ht.
+  - apply vs_remove_wf, Hf.
+  - intros w. rewrite !vs_contains_remove. destruct (w =? v); cbn [negb andb]; auto.
+Qed.
+
+(* assignment_iter lists exactly the assigned literals (false ones first) *)
+Theorem pm_assignment_iter_spec m l :
+  pm_wf m -> (In l (pm_assignment_iter m) <-> pm_get m (fst l) = Some (snd l)).
+Proof.
+  intros (_ & _ & Hd). unfold pm_assignment_iter, pm_get. rewrite in_app_iff, !in_map_iff.
+  destruct l as [v b]; cbn [fst snd]. specialize (Hd v). split.
+  - intros [[x [E Hx]]|[x [E Hx]]]; inversion E; subst; apply vs_contains_In in Hx.
+    + destruct (vs_contains (pm_true m) v); [specialize (Hd eq_refl); congruence|].
+      rewrite Hx. reflexivity.
+    + rewrite Hx. reflexivity.
+  - destruct (vs_contains (pm_true m) v) eqn:Et.
+    + intros H; inversion H; subst. right. exists v. split; [reflexivity|apply vs_contains_In, Et].
+    + destruct (vs_contains (pm_false m) v) eqn:Ef; [|discriminate].
+      intros H; inversion H; subst. left. exists v. split; [reflexivity|apply vs_contains_In, Ef].
+Qed.
+
+(* difference: the literals assigned by m that o does not assign the same way *)
+Theorem pm_difference_spec m o l :
+  pm_wf m -> pm_wf o ->
+  (In l (pm_difference m o) <-> pm_get m (fst l) = Some (snd l) /\ pm_get o (fst l) <> Some (snd l)).
+Proof.
+  intros (_ & _ & Hdm) (_ & _ & Hdo). unfold pm_difference, pm_get.
+  rewrite in_app_iff, !in_map_iff. destruct l as [v b]; cbn [fst snd].
+  specialize (Hdm v). specialize (Hdo v). split.
+  - intros [[x [E Hx]]|[x [E Hx]]]; inversion E; subst; apply vs_contains_In in Hx;
+      rewrite vs_contains_difference in Hx; apply andb_true_iff in Hx; destruct Hx as [H1 H2];
+      apply negb_true_iff in H2.
+    + destruct (vs_contains (pm_true m) v); [specialize (Hdm eq_refl); congruence|].
+      rewrite H1, H2. split; [reflexivity|]. destruct (vs_contains (pm_true o) v); discriminate.
+    + rewrite H1, H2. split; [reflexivity|]. destruct (vs_contains (pm_false o) v); discriminate.
+  - intros [H1 H2].
+    destruct (vs_contains (pm_true m) v) eqn:Et.
+    + inversion H1; subst. right. exists v. split; [reflexivity|].
+      apply vs_contains_In. rewrite vs_contains_difference, Et.
+      destruct (vs_contains (pm_true o) v); [congruence|reflexivity].
+    + destruct (vs_contains (pm_false m) v) eqn:Ef; [|discriminate].
+      inversion H1; subst. left. exists v. split; [reflexivity|].
+      apply vs_contains_In. rewrite vs_contains_difference, Ef.
+      destruct (vs_contains (pm_true o) v) eqn:Eto.
+      * rewrite (Hdo eq_refl). reflexivity.
+      * destruct (vs_contains (pm_false o) v); [congruence|reflexivity].
+Qed.
